@@ -1,19 +1,9 @@
 (* The case language interpreter: one case (an s-expression) in, one canonical result line out.
    The same function is evaluated in-kernel (vm_compute) and extracted to OCaml. *)
 From Coq Require Import Strings.String.
-From Iso Require Import Model.Base Model.Sexp Model.Padding Model.Encoding Model.Prefix Model.Network Model.Bitmap.
+From Iso Require Import Model.Base Model.Sexp Model.Padding Model.Encoding Model.Prefix Model.Network Model.Bitmap Model.Spec Model.Field Model.Message Model.Terms.
 
 Definition S' (s : string) : bytes := list_byte_of_string s.
-
-Definition parse_padder (k pb : sexp) : option padder :=
-  match as_byte pb with
-  | None => None
-  | Some c =>
-      if atom_is k (S' "N") then Some PadNone
-      else if atom_is k (S' "L") then Some (PadLeft c)
-      else if atom_is k (S' "R") then Some (PadRight c)
-      else None
-  end.
 
 Definition bad : bytes := S' "badcase".
 
@@ -37,18 +27,6 @@ Definition run_unpad (args : list sexp) : bytes :=
       end
   | _ => bad
   end.
-
-Definition parse_encoder (s : sexp) : option encoder :=
-  if atom_is s (S' "ASCII") then Some EncASCII
-  else if atom_is s (S' "Binary") then Some EncBinary
-  else if atom_is s (S' "BCD") then Some EncBCD
-  else if atom_is s (S' "LBCD") then Some EncLBCD
-  else if atom_is s (S' "Hex") then Some EncHex
-  else if atom_is s (S' "HexToBytes") then Some EncHexToBytes
-  else if atom_is s (S' "EBCDIC") then Some EncEBCDIC
-  else if atom_is s (S' "EBCDIC1047") then Some EncEBCDIC1047
-  else if atom_is s (S' "BerTag") then Some EncBerTag
-  else None.
 
 Definition show_outcome {A} (show : A -> bytes) (o : outcome A) : bytes :=
   match o with
@@ -78,38 +56,6 @@ Definition run_enc_dec (args : list sexp) : bytes :=
       end
   | _ => bad
   end.
-
-(* prefixer names as the library prints them: ASCII.LL, Hex.Fixed, BerTLV, None.Fixed *)
-Fixpoint split_dot (l : bytes) (cur : bytes) : bytes * bytes :=
-  match l with
-  | [] => (frev cur, [])
-  | b :: r => if Byte.eqb b x2e then (frev cur, r) else split_dot r (b :: cur)
-  end.
-
-Definition parse_family (a : bytes) : option pfamily :=
-  if bytes_eqb a (S' "ASCII") then Some PfASCII
-  else if bytes_eqb a (S' "BCD") then Some PfBCD
-  else if bytes_eqb a (S' "Binary") then Some PfBinary
-  else if bytes_eqb a (S' "Hex") then Some PfHex
-  else if bytes_eqb a (S' "EBCDIC") then Some PfEBCDIC
-  else if bytes_eqb a (S' "EBCDIC1047") then Some PfEBCDIC1047
-  else None.
-
-Definition parse_prefixer_name (a : bytes) : option prefixer :=
-  if bytes_eqb a (S' "BerTLV") then Some PBerTLV
-  else if bytes_eqb a (S' "None.Fixed") then Some PNone
-  else
-    let '(fam, w) := split_dot a [] in
-    match parse_family fam with
-    | None => None
-    | Some f =>
-        if bytes_eqb w (S' "Fixed") then Some (PFixed f)
-        else if forallb (Byte.eqb x4c) w && negb (Nat.eqb (length w) 0) then Some (PVar f (length w))
-        else None
-    end.
-
-Definition parse_prefixer (s : sexp) : option prefixer :=
-  match s with Atom a => parse_prefixer_name a | _ => None end.
 
 Definition run_pref_enc (args : list sexp) : bytes :=
   match args with
@@ -224,16 +170,10 @@ Definition bm_op (s : bmspec) (st : outcome (bytes * list bytes)) (op : sexp) : 
   | _ => Err bad
   end.
 
-Definition parse_bmspec (b a e p : sexp) : option bmspec :=
-  match as_int b, as_bool a, parse_encoder e, parse_prefixer p with
-  | Some b, Some a, Some e, Some p => Some {| bm_len := b; bm_auto := a; bm_enc := e; bm_pref := p |}
-  | _, _, _, _ => None
-  end.
-
 Definition run_bm (args : list sexp) : bytes :=
   match args with
   | [b; a; e; p; SList ops] =>
-      match parse_bmspec b a e p with
+      match parse_bmspec_args [b; a; e; p] with
       | Some s =>
           match fold_left (bm_op s) ops (Ok (bm_new s, [])) with
           | Ok (_, out) => join (S' " | ") (frev out)
@@ -241,6 +181,143 @@ Definition run_bm (args : list sexp) : bytes :=
           | Panic _ => S' "panic"
           | OutOfFuel => S' "outoffuel"
           end
+      | None => bad
+      end
+  | _ => bad
+  end.
+
+(* ---- a field object: (fld <fspec> (op...)) ---- *)
+Definition u_class {A} (r : ures A) : outcome unit :=
+  match r with UPanic p => Panic p | UFuel => OutOfFuel | _ => Ok tt end.
+
+Definition fld_op (s : fspec) (acc : outcome (fstate * list bytes)) (op : sexp) : outcome (fstate * list bytes) :=
+  do (st, out) <- acc;
+  match op with
+  | SList [Atom name; arg] =>
+      if bytes_eqb name (S' "set") then
+        match parse_fval arg with
+        | Some v => Ok (set_val s st v, S' "ok" :: out)
+        | None => Err bad
+        end
+      else if bytes_eqb name (S' "unpack") then
+        match as_hex arg with
+        | Some d => match unpack_f s st d with
+                    | (st', r) => do _ <- u_class r; Ok (st', show_ures show_int r :: out)
+                    end
+        | None => Err bad
+        end
+      else if bytes_eqb name (S' "setbytes") then
+        match as_hex arg with
+        | Some d => match setbytes_f s st d with
+                    | (st', r) => do _ <- u_class r; Ok (st', show_ures (fun _ => []) r :: out)
+                    end
+        | None => Err bad
+        end
+      else Err bad
+  | SList [Atom name] =>
+      if bytes_eqb name (S' "pack") then
+        match pack_f s st with
+        | Ok w => Ok (st, (S' "ok " ++ show_hex w) :: out)
+        | Err _ => Ok (st, S' "err" :: out)
+        | Panic p => Panic p
+        | OutOfFuel => OutOfFuel
+        end
+      else if bytes_eqb name (S' "get") then Ok (st, show_val st :: out)
+      else if bytes_eqb name (S' "reset") then Ok (fresh s, S' "ok" :: out)
+      else Err bad
+  | _ => Err bad
+  end.
+
+Definition finish {A} (r : outcome (A * list bytes)) : bytes :=
+  match r with
+  | Ok (_, out) => join (S' " | ") (frev out)
+  | Err _ => bad
+  | Panic _ => S' "panic"
+  | OutOfFuel => S' "outoffuel"
+  end.
+
+Definition run_fld (args : list sexp) : bytes :=
+  match args with
+  | [fs; SList ops] =>
+      match parse_fspec fs with
+      | Some s => finish (fold_left (fld_op s) ops (Ok (fresh s, [])))
+      | None => bad
+      end
+  | _ => bad
+  end.
+
+(* ---- a message object: (msg <mspec> (op...)) ---- *)
+Definition show_present (S : mspec) (m : mstate) : bytes :=
+  let ids := sort_z (m_present m) in
+  S' "(" ++ join sp (map (fun id =>
+      if id =? 0 then S' "(0 " ++ show_val (m_mti m) ++ S' ")"
+      else if id =? 1 then S' "(1)"
+      else match zlookup id (m_fields m) with
+           | Some st => S' "(" ++ show_int id ++ sp ++ show_val st ++ S' ")"
+           | None => S' "(" ++ show_int id ++ S' " ?)"
+           end) ids) ++ S' ")".
+
+Definition msg_op (S : mspec) (acc : outcome (mstate * list bytes)) (op : sexp) : outcome (mstate * list bytes) :=
+  do (m, out) <- acc;
+  match op with
+  | SList [Atom name; a1; a2] =>
+      if bytes_eqb name (S' "field") then
+        match as_int a1, as_hex a2 with
+        | Some id, Some v => match m_set_field S m id v with
+                             | (m', r) => do _ <- u_class r; Ok (m', show_ures (fun _ => []) r :: out)
+                             end
+        | _, _ => Err bad
+        end
+      else if bytes_eqb name (S' "setval") then
+        match as_int a1, parse_fval a2 with
+        | Some id, Some v =>
+            match zlookup id (ms_fields S), zlookup id (m_fields m) with
+            | Some s, Some st =>
+                let m1 := with_present m (zadd id (m_present m)) in
+                Ok (with_fields m1 (zupdate id (set_val s st v) (m_fields m1)), S' "ok" :: out)
+            | _, _ => Err bad
+            end
+        | _, _ => Err bad
+        end
+      else Err bad
+  | SList [Atom name; arg] =>
+      if bytes_eqb name (S' "mti") then
+        match as_hex arg with
+        | Some v => Ok (m_set_mti S m v, S' "ok" :: out)
+        | None => Err bad
+        end
+      else if bytes_eqb name (S' "unpack") then
+        match as_hex arg with
+        | Some d => match m_unpack S m d with
+                    | (m', r) => do _ <- u_class r; Ok (m', show_ures (fun _ => []) r :: out)
+                    end
+        | None => Err bad
+        end
+      else if bytes_eqb name (S' "unset") then
+        match as_int arg with
+        | Some id => Ok (m_unset S m id, S' "ok" :: out)
+        | None => Err bad
+        end
+      else Err bad
+  | SList [Atom name] =>
+      if bytes_eqb name (S' "pack") then
+        match m_pack S m with
+        | (m', Ok w) => Ok (m', (S' "ok " ++ show_hex w) :: out)
+        | (m', Err _) => Ok (m', S' "err" :: out)
+        | (_, Panic p) => Panic p
+        | (_, OutOfFuel) => OutOfFuel
+        end
+      else if bytes_eqb name (S' "get") then Ok (m, show_present S m :: out)
+      else if bytes_eqb name (S' "bitmap") then let m' := m_bitmap S m in Ok (m', show_hex (m_bm m') :: out)
+      else Err bad
+  | _ => Err bad
+  end.
+
+Definition run_msg (args : list sexp) : bytes :=
+  match args with
+  | [ms; SList ops] =>
+      match parse_mspec ms with
+      | Some MS => finish (fold_left (msg_op MS) ops (Ok (mfresh MS, [])))
       | None => bad
       end
   | _ => bad
@@ -256,6 +333,8 @@ Definition dispatch (s : sexp) : bytes :=
       else if bytes_eqb name (S' "pref.enc") then run_pref_enc args
       else if bytes_eqb name (S' "pref.dec") then run_pref_dec args
       else if bytes_eqb name (S' "bm") then run_bm args
+      else if bytes_eqb name (S' "fld") then run_fld args
+      else if bytes_eqb name (S' "msg") then run_msg args
       else if bytes_eqb name (S' "hdr.set") then run_hdr_set args
       else if bytes_eqb name (S' "hdr.write") then run_hdr_write args
       else if bytes_eqb name (S' "hdr.read") then run_hdr_read args
